@@ -531,6 +531,10 @@ def run_impl(base, top, opts, allow_create, allow_xdev, ops, order_key, real_fau
                         r = m.assert_directory_verifies(op[1], last_mtime=(op[3][0] if op[3] else None))
                     else:
                         def handler(err, pol=pol, calls=calls):
+                            if not hasattr(err, 'diff'):
+                                # not a mismatch report: a keep-going handler (like the CLI's) logs it and goes on
+                                calls.append(['<%s>' % type(err).__name__, []])
+                                return False
                             calls.append([err.path, [str(d[0]) for d in err.diff]])
                             return pol(err)
                         r = m.assert_directory_verifies(op[1], fail_handler=handler,
